@@ -238,6 +238,15 @@ fn matches_equal(eg: &EGraph<A, ConstFold>, rules: &[RuleJ]) -> bool {
     true
 }
 
+/// (start term, rules, entry point, ExtractionSubst)
+const FIXED: &[(&str, &[&str], &str, bool)] = &[
+    // explanations build: add_syn left pending work behind, Extractor::new (ExtractionSubst) panicked
+    ("(let $1 (mul (add (add (mul 0 (var $2)) (mul 0 (var $1))) (mul (var $3) 2)) (add (add 1 (var $2)) (add 2 (var $3)))) (mul (sum $1 (var $1)) (add (sum $1 (var $3)) (add 1 (var $3)))))",
+     &["let-subst", "distr", "let-add", "let-sum", "let-var", "sum-pull", "sum-const", "pull-in", "sum-swap", "mul0-var", "let-const"], "runner", true),
+    ("(let $1 (mul (mul 0 (var $1)) (add 1 (var $1))) 2)", &["let-subst", "distr", "let-add", "mul0-var"], "manual", true),
+    ("(let $1 (mul (mul 0 (var $1)) (add 1 (var $2))) 2)", &["let-subst", "distr", "let-add", "mul0-var"], "eqsat", true),
+];
+
 fn ceil_ms(d: std::time::Duration) -> u64 { ((d.as_nanos() + 999_999) / 1_000_000) as u64 }
 
 /// bracket of the loop's own clock at the limit check of iteration i:
@@ -259,20 +268,32 @@ fn main() {
     install_hook();
     start_watchdog(env_u64("VERIF_WATCHDOG", 90));
     let (mut nev, mut panics) = (0usize, 0usize);
+    let mut abandoned = 0usize;
     let mut findings: Vec<Value> = Vec::new();
     let t_start = std::time::Instant::now();
     for run in 0..runs {
         if std::env::var("VERIF_RW_DEBUG").is_ok() && run % 50 == 0 { eprintln!("run {run} at {:.1}s", t_start.elapsed().as_secs_f64()); }
-        let kind = ["manual", "runner", "eqsat"][run % 3];
+        let mut kind = ["manual", "runner", "eqsat"][run % 3];
         tick(&format!("rewriting run {run}"));
-        let start_txt = gen_term(&mut rng, if run % 2 == 0 { 3 } else { 4 });
+        let mut start_txt = gen_term(&mut rng, if run % 2 == 0 { 3 } else { 4 });
         let k = rng.gen_range(4..=12);
-        let rules: Vec<RuleJ> = rf.rules.choose_multiple(&mut rng, k).cloned().collect();
+        let mut rules: Vec<RuleJ> = rf.rules.choose_multiple(&mut rng, k).cloned().collect();
+        let mut iter_limit = rng.gen_range(0..=3usize);
+        let mut node_limit = *[20usize, 40, 60, 100].choose(&mut rng).unwrap();
+        let mut hook_fail_at: Option<usize> = if rng.gen_bool(0.2) { Some(rng.gen_range(0..3)) } else { None };
+        let mut extraction_subst = rng.gen_bool(0.5);
+        // the first runs are fixed configurations (histories that once failed); the random stream is
+        // consumed as usual so that the later runs do not depend on this list
+        if let Some((st, rs, kd, ext)) = FIXED.get(run) {
+            start_txt = st.to_string();
+            rules = rs.iter().map(|n| rf.rules.iter().find(|r| r.name == *n).unwrap().clone()).collect();
+            kind = kd;
+            iter_limit = 3;
+            node_limit = 100;
+            hook_fail_at = None;
+            extraction_subst = *ext;
+        }
         let rule_names: Vec<String> = rules.iter().map(|r| r.name.clone()).collect();
-        let iter_limit = rng.gen_range(0..=3usize);
-        let node_limit = *[20usize, 40, 60, 100].choose(&mut rng).unwrap();
-        let hook_fail_at: Option<usize> = if rng.gen_bool(0.2) { Some(rng.gen_range(0..3)) } else { None };
-        let extraction_subst = rng.gen_bool(0.5);
         // time limits: far away (the library's defaults), zero, or 5 s (never reached by these runs:
         // a TimeLimit stop would have to be justified by the recorder's own clock)
         let time_mode = *["far", "far", "far", "zero", "mid"].choose(&mut rng).unwrap();
@@ -282,10 +303,12 @@ fn main() {
         // classes already use internally
         let late_rules = rng.gen_bool(0.35);
         let late_seed: u64 = rng.gen();
-        if std::env::var("VERIF_RW_DEBUG").is_ok() && run >= 999999 { eprintln!("run {run}: {kind} {start_txt} {rule_names:?} iter_limit={iter_limit} node_limit={node_limit} ext={extraction_subst}"); }
+        if std::env::var("VERIF_RW_DEBUG_RUN").ok().and_then(|x| x.parse::<usize>().ok()) == Some(run) { eprintln!("run {run}: {kind} {start_txt} {rule_names:?} iter_limit={iter_limit} node_limit={node_limit} ext={extraction_subst} late={late_rules} late_seed={late_seed} time={time_mode} hook_fail={hook_fail_at:?}"); }
         let st = start_txt.clone();
         let rules2 = rules.clone();
-        let res = std::thread::spawn(move || guard(move || {
+        if let Some(only) = std::env::var("VERIF_RW_ONLY").ok().and_then(|x| x.parse::<usize>().ok()) { if only != run { continue; } }
+        let (tx_res, rx_res) = std::sync::mpsc::channel();
+        std::thread::spawn(move || { let r = guard(move || {
             let mut evs: Vec<Value> = Vec::new();
             let start: RecExpr<A> = RecExpr::parse(&st).unwrap();
             let mut tracked = Vec::new();
@@ -395,7 +418,14 @@ fn main() {
                 if eg.total_number_of_nodes() <= 200 { dump_events(&eg, &start, &root, &mut evs); }
             }
             evs
-        })).join().unwrap();
+        }); let _ = tx_res.send(r); });
+        // Saturation with rules that create ever larger symmetric classes (mul0-var with comm/assoc)
+        // makes the library enumerate astronomically many group variants: such a run is slow, not
+        // wrong.  It is abandoned after the limit (its thread is left behind) and counted.
+        let res = match rx_res.recv_timeout(std::time::Duration::from_secs(env_u64("VERIF_RW_RUN_LIMIT", 20))) {
+            Ok(r) => r,
+            Err(_) => { abandoned += 1; if abandoned > 6 { break; } continue; }
+        };
         match res {
             Ok(evs) => { for e in evs { writeln!(out, "{e}").unwrap(); nev += 1; } }
             Err(p) => {
@@ -406,5 +436,7 @@ fn main() {
         }
     }
     for f in &findings { println!("{f}"); }
-    println!("{}", json!({"kind":"summary","runs":runs,"events":nev,"panics":panics,"p":rf.p}));
+    println!("{}", json!({"kind":"summary","runs":runs,"events":nev,"panics":panics,"p":rf.p,"runs_abandoned_as_too_slow":abandoned}));
+    out.flush().unwrap();
+    std::process::exit(0);      // abandoned runs may still be computing
 }
